@@ -13,7 +13,7 @@ import lib
 from lib import zlit, vlist
 
 LEVEL = "proof"
-UNITS = ["GenBoot", "GenBootImage"]
+UNITS = ["GenBoot", "GenBootImage", "GenBootCtrl"]
 
 # names that are parameters of boot() / MachineController.boot(): given as keywords they are not options
 BOOT_PARAMS = {"hostname", "boot_port", "scamp_binary", "sark_struct", "boot_delay", "post_boot_delay",
@@ -21,7 +21,8 @@ BOOT_PARAMS = {"hostname", "boot_port", "scamp_binary", "sark_struct", "boot_del
 FIXED = ("unix_time", "boot_sig", "root_chip")
 KINDS = {"C": ("B", 1, False), "c": ("b", 1, True), "v": ("H", 2, False), "V": ("I", 4, False)}
 HEADER = ("From Coq Require Import ZArith List String. Import ListNotations. Open Scope Z_scope.\n"
-          "Require Import Rig.Generated.GenBoot Rig.Generated.GenBootImage Rig.Model.Base Rig.Model.Boot.\n")
+          "Require Import Rig.Generated.GenBoot Rig.Generated.GenBootImage Rig.Generated.GenBootCtrl Rig.Model.Base "
+          "Rig.Model.Boot Rig.Model.BootCtrl.\n")
 
 
 # ------------------------------------------------------------------ independent reading of struct files
@@ -518,34 +519,68 @@ def coq_call(h, c, presets):
         vlist(zlit(int(t)) for t in c["times"]))
 
 
-def coq_history(h, presets, step="boot_step"):
-    if step == "boot_step":
-        return "observe_run %s %s" % (step, vlist(coq_call(h, c, presets) for c in h["calls"]))
-    # The code as found modified the dictionary object it was given.  The Coq model takes dictionary VALUES, so
-    # the aliasing between calls (a caller's dictionary or a preset object passed again) is threaded here.
-    h2 = dict(slots=[[list(kv) for kv in s_] for s_ in h["slots"]], calls=h["calls"])
-    pres = dict((k, [list(kv) for kv in v]) for k, v in presets.items())
-    calls = []
+def ctrl_order(h):
+    """The controllers of a history in the order the model creates them: ("mc", key) at the first boot through a
+    controller, ("cli", None) for the controller the command-line tool makes."""
+    order = []
     for c in h["calls"]:
-        calls.append(coq_call(h2, c, pres))
-        ov = c["overrides"]
-        if ov is not None and "fresh" not in ov:
-            obj = h2["slots"][ov["slot"]] if "slot" in ov else pres["spin%d" % ov["preset"]]
-            d = dict((k, v) for k, v in obj)
-            d.update((k, v) for k, v in received_kwargs(c, pres))
-            obj[:] = [[k, v] for k, v in d.items()]
-    return "observe_run %s %s" % (step, vlist(calls))
+        if c["via"] == "mc" and ("mc", c["ctrl"]) not in order:
+            order.append(("mc", c["ctrl"]))
+        elif c["via"] == "cli":
+            order.append(("cli", None))
+    return order
 
 
-def canon_model(v):
-    st, obs = v
+def coq_history(h, presets, step="boot_step"):
+    """observe_ops over the operations of the history: OpBoot for boot(), OpNew (at its first use) + OpCtrlBoot for
+    MachineController.boot, cli_ops (which looks the flag up in the table dumped from rig_boot.py) for rig-boot."""
+    h2, pres = h, presets
+    if step != "boot_step":
+        # The code as found modified the dictionary object it was given.  The Coq model takes dictionary VALUES,
+        # so the aliasing between calls (a caller's dictionary or a preset object passed again) is threaded here.
+        h2 = dict(slots=[[list(kv) for kv in s_] for s_ in h["slots"]], calls=h["calls"])
+        pres = dict((k, [list(kv) for kv in v]) for k, v in presets.items())
+    ops = []
+    seen = []
+    for c in h["calls"]:
+        lit = coq_call(h2, c, pres)
+        host = zlit(int(c["host"].split(".")[-1]))
+        if c["via"] == "func":
+            ops.append("[OpBoot %s]" % lit)
+        elif c["via"] == "mc":
+            if ("mc", c["ctrl"]) not in seen:
+                seen.append(("mc", c["ctrl"]))
+                ops.append("[OpNew %s None %s]" % (host, "(Some live_sv)" if c.get("structs_given") else "None"))
+            ops.append("[OpCtrlBoot %d %s %s %s]" % (seen.index(("mc", c["ctrl"])), lib.vopt(c.get("width"), zlit),
+                                                    lib.vopt(c.get("height"), zlit), lit))
+        else:
+            flag = "(Some %s)" % coq_str(c["cli_args"][0]) if c["cli_args"] else "None"
+            ops.append("(cli_ops %s %s (clock_of %s) %d)" % (host, flag, vlist(zlit(int(t)) for t in c["times"]),
+                                                            len(seen)))
+            seen.append(("cli", len(seen)))
+        if step != "boot_step":
+            ov = c["overrides"]
+            if ov is not None and "fresh" not in ov:
+                obj = h2["slots"][ov["slot"]] if "slot" in ov else pres["spin%d" % ov["preset"]]
+                d = dict((k, v) for k, v in obj)
+                d.update((k, v) for k, v in received_kwargs(c, pres))
+                obj[:] = [[k, v] for k, v in d.items()]
+    return "observe_ops %s (%s)" % (step, " ++ ".join(ops) if ops else "[]")
+
+
+def canon_model(v, h):
+    st, obs, ctrls = v
     calls = []
     for dest, dgs, res, cd in obs:
         calls.append(dict(dest=None if dest is None else list(dest[1]),
                           datagrams=[list(d) for d in dgs],
                           result=["ok", list(res[1])] if res[0] == "Ok" else [res[0]],
                           caller_dict=None if cd is None else [list(kv) for kv in cd[1]]))
-    return dict(shared=[list(kv) for kv in st], calls=calls)
+    order = ctrl_order(h)
+    cs = [[host, port, list(dfl)] for (kind, _), (host, port, dfl) in zip(order, ctrls) if kind == "mc"]
+    if len(ctrls) != len(order):
+        cs.append("model has %d controllers, the history %d" % (len(ctrls), len(order)))
+    return dict(shared=[list(kv) for kv in st], calls=calls, controllers=cs)
 
 
 def canon_impl(h, out):
@@ -570,10 +605,27 @@ def canon_impl(h, out):
             res = ["OtherError"]
         calls.append(dict(dest=dest, datagrams=dgs, result=res, caller_dict=o["passed_after"]))
     shared = out["calls"][-1]["shared_after"] if out["calls"] else []
-    return dict(shared=shared, calls=calls)
+    cs = []
+    final = out["calls"][-1]["controllers"] if out["calls"] else {}
+    for kind, key in ctrl_order(h):
+        if kind == "mc":
+            snap = final.get("c%s" % key)
+            if snap is None:
+                cs.append(None)
+                continue
+            host = snap["host"]
+            cs.append([int(host.split(".")[-1]) if isinstance(host, str) and host.startswith("127.0.0.") else host,
+                       snap["port"], [d for _, d in snap["sv"]] if snap["sv"][:1] != ["unreadable"] else snap["sv"]])
+    return dict(shared=shared, calls=calls, controllers=cs)
 
 
 def first_difference(m, i):
+    if m.get("controllers") != i.get("controllers"):
+        for k, (a, b) in enumerate(zip(m["controllers"], i["controllers"])):
+            if a != b:
+                return "controller %d after the history (host, boot port, sv defaults): model %s, implementation %s" % (
+                    k, str(a)[:400], str(b)[:400])
+        return "controllers after the history: model %d, implementation %d" % (len(m["controllers"]), len(i["controllers"]))
     if m["shared"] != i["shared"]:
         return "shared default dictionary after the history: model %r, implementation %r" % (m["shared"], i["shared"])
     for k, (a, b) in enumerate(zip(m["calls"], i["calls"])):
@@ -620,9 +672,9 @@ def run(chk, args):
     timing = lambda what: os.environ.get("C20_TIMING") and print("[C20 %6.1fs] %s" % (_t.time() - t0, what))
     chk.regenerate(UNITS)
     timing("regenerated")
-    built = chk.prove(extra_targets=["Model/Boot.vo", "Generated/GenBootImage.vo"])
+    built = chk.prove(extra_targets=["Model/Boot.vo", "Model/BootCtrl.vo", "Generated/GenBootImage.vo"])
     if not built:
-        ok, log = chk.build(["Model/Boot.vo", "Generated/GenBootImage.vo"])
+        ok, log = chk.build(["Model/Boot.vo", "Model/BootCtrl.vo", "Generated/GenBootImage.vo"])
         if not ok:
             chk.model_ok = False
             chk.oblige("build:Model/Boot.vo", False, log[-1500:])
@@ -847,7 +899,7 @@ def run(chk, args):
                         last.pop(key, None)
                 bad = None
                 for key, (j, vals) in last.items():
-                    snap = oc["controllers"].get(key)
+                    snap = (oc["controllers"].get(key) or {}).get("sv")
                     if snap is None or (snap and snap[0] == "unreadable"):
                         continue
                     diff = [(n, d, vals.get(n)) for n, d in snap if vals.get(n) != d]
@@ -891,7 +943,7 @@ def run(chk, args):
             bad = None
             for (h, o), v in zip(good, vals):
                 chk.traces_validated += len(h["calls"])
-                m, im = canon_model(v), canon_impl(h, o)
+                m, im = canon_model(v, h), canon_impl(h, o)
                 for k_, c_ in enumerate(h["calls"]):     # the command-line tool returns nothing to compare
                     if c_["via"] == "cli" and k_ < len(m["calls"]) and m["calls"][k_]["result"][0] == "ok":
                         m["calls"][k_]["result"] = ["cli"]
@@ -906,7 +958,7 @@ def run(chk, args):
                 note = ""
                 try:
                     v2 = chk.coq_eval(HEADER, [coq_history(h, o["presets_before"], "boot_orig_step")], name="orig")[0]
-                    if canon_model(v2) == canon_impl(h, o):
+                    if canon_model(v2, h) == canon_impl(h, o):
                         note = " [the implementation agrees with boot_orig_step, the model of the code as found before the fix]"
                 except Exception:
                     pass
